@@ -25,6 +25,7 @@ ANCHORS = ['pycaption.dfxp.base:RegionCreator._collect_unique_regions',
            'pycaption.dfxp.base:LayoutInfoScraper._find_attribute',
            'pycaption.webvtt:WebVTTWriter._convert_positioning', 'pycaption.webvtt:WebVTTWriter._group_cues_by_layout',
            'pycaption.webvtt:WebVTTWriter._convert_caption', 'pycaption.webvtt:WebVTTReader._parse_timing_line']
+THOROUGH_SCALE = 3        # random budgets of the thorough tier are multiplied by this
 REQUIRE = {'dfxp_roundtrips': 100, 'webvtt_writes': 100, 'webvtt_roundtrips': 30, 'texts_compared': 500,
            'level_lang': 20, 'level_caption': 20, 'level_span': 20, 'level_node': 10,
            'webvtt_split_captions': 20, 'webvtt_settings_compared': 200, 'alignment_pairs_seen': 15,
